@@ -28,6 +28,11 @@ Definition net_value {R : Type} (zero one : R) (add mul : R -> R -> R)
            (s : store) (tbl : nat -> list nat -> R) (rho : wire -> nat) : R :=
   value_s zero one add mul s tbl (net_diagram s) rho.
 
+(* the entry of the tensor the whole network denotes, at a multi-index of its open legs (canonical order) *)
+Definition net_entry {R : Type} (zero one : R) (add mul : R -> R -> R)
+           (s : store) (tbl : nat -> list nat -> R) (rho0 : wire -> nat) (idx : list nat) : R :=
+  entry R zero one add mul (atom_wires s) (wdim s) tbl (net_diagram s) rho0 idx.
+
 (* the value of one node's tensor (raw diagram; transposition does not change the value) *)
 Definition node_value {R : Type} (zero one : R) (add mul : R -> R -> R)
            (s : store) (tbl : nat -> list nat -> R) (k : id) (rho : wire -> nat) : R :=
@@ -94,10 +99,10 @@ Definition eye_atom {R : Type} (zero one : R) (tbl : nat -> list nat -> R) (a : 
 Definition dflt_def : kdef :=
   {| kq := 0; kr := 0; kbond := 0; kinput := empty_sarr; kkind := 0; kmode := None |}.
 
-(* the operations that leave the set of tensors' atoms alone or replace atoms by factors: everything
-   but the two constructors *)
+(* the operations that keep the network (leave the atoms alone or replace atoms by factors): everything
+   but add_child (add_root is rejected once a root exists) *)
 Definition is_edit_op (o : op) : bool :=
-  match o with AddRoot _ _ | AddChild _ _ _ _ _ => false | _ => true end.
+  match o with AddChild _ _ _ _ _ => false | _ => true end.
 
 (* the contracts required along a run: after every accepted split the newest recorded definition
    holds in the store just produced; after every accepted insert_identity the fresh atom is an
